@@ -224,6 +224,36 @@ def run_adj3(ctx, p):
     ctx.judge('adjoint', d <= TOL, dict(api='adjoint(SO3)', kind='identity_residual'), lambda: 'adjoint(R) differs from blockdiag(R,R) by %g' % d)
 
 
+def run_adj_multi(ctx, p):
+    """the adjoint family on objects holding several values: SE3.Ad(), Twist3.Ad(), Twist3.ad() give one matrix per value, equal
+    to the single-valued result -- also when the values are of different kinds (revolute, prismatic and general twists mixed)"""
+    import scipy.linalg
+    sm = S()
+    Ss = [np.asarray(s_, dtype=np.float64) for s_ in p['S']]
+    sig = dict(api='adjoint_multi', kinds=''.join(sorted(set(p['kinds']))))
+    try:
+        tw = sm.Twist3(Ss)
+        Ads, ads = tw.Ad(), tw.ad()
+        E = [ref.f64(ref.exp_twist_ld(s_)) for s_ in Ss]
+        X = sm.SE3(E)
+        AdX = X.Ad()
+        ok = len(Ads) == len(Ss) and len(ads) == len(Ss) and len(AdX) == len(Ss)
+        worst = 0.0
+        if ok:
+            for s_, e_, a1, a2, a3 in zip(Ss, E, Ads, ads, AdX):
+                sc = max(1.0, float(np.linalg.norm(e_[:3, 3])), float(np.max(np.abs(s_))))
+                want = ref.adjoint(e_)
+                worst = max(worst, md(np.asarray(a1, dtype=np.float64), want) / sc * (TOL / TOLX), md(np.asarray(a3, dtype=np.float64), want) / sc,
+                            md(np.asarray(a2, dtype=np.float64), ref.ad(s_)) / sc)
+    except Exception as e:
+        ctx.bad('adjoint', dict(sig, kind='raised', exc=type(e).__name__), 'adjoint family on %d twists (%s) raised %r' % (len(Ss), p['kinds'], e))
+        return
+    ctx.judge('adjoint', ok and worst <= TOL, dict(sig, kind='per_value_adjoint_wrong'),
+              lambda: 'Twist3.Ad / Twist3.ad / SE3.Ad on %d values of kinds %s: %s, worst scaled residual %.3g' % (len(Ss), p['kinds'], 'lengths ok' if ok else 'wrong number of results', worst))
+    ctx.cell('adj_multi', len(Ss), sig['kinds'])
+    ctx.nontrivial('adj_multi', p['kinds'], [float('%.9g' % t) for s_ in Ss for t in s_])
+
+
 # ----------------------------------------------------------------------------- differential motion
 def run_delta(ctx, p):
     b = B()
@@ -310,7 +340,7 @@ def run_sym(ctx, p):
     ctx.nontrivial('sym', which)
 
 
-RUNNERS = {'maps': run_maps, 'adj': run_adj, 'adj3': run_adj3, 'delta': run_delta, 'sym': run_sym}
+RUNNERS = {'adj_multi': run_adj_multi, 'maps': run_maps, 'adj': run_adj, 'adj3': run_adj3, 'delta': run_delta, 'sym': run_sym}
 
 
 def REACH():
@@ -344,6 +374,21 @@ def run(ctx):
             vi = rng.integers(0 if it[0] == 'u' else -hi_, hi_, size=n)      # (the most negative value of a signed type included)
             if np.any(vi):
                 drive(RUNNERS, ctx, 'maps', dict(which=which, v=[int(x) for x in vi], u=gen.vec(rng, n, 1e-2, 1e2), itype=it))
+    for _ in range(ctx.scale(300, 6000)):
+        n = int(rng.integers(2, 5))
+        kinds, Ss = [], []
+        for _k in range(n):
+            kd = 'RPG'[rng.integers(3)]
+            w = gen.unit_axis(rng) * rng.uniform(0.1, 3.0)
+            if kd == 'R':       # revolute: moment perpendicular to the axis
+                s_ = np.r_[-np.cross(w, gen.vec(rng, 3, 1e-2, 1e1)), w]
+            elif kd == 'P':
+                s_ = np.r_[gen.vec(rng, 3, 1e-2, 1e1), np.zeros(3)]
+            else:
+                s_ = np.r_[gen.vec(rng, 3, 1e-2, 1e1), w]
+            kinds.append(kd)
+            Ss.append(s_)
+        drive(RUNNERS, ctx, 'adj_multi', dict(kinds=kinds, S=Ss))
     for _ in range(ctx.scale(5000, 120000)):
         which = ['Ad_value', 'Ad_homomorphism', 'Ad_inverse', 'Ad_intertwine', 'exp_ad', 'jacobian', 'jacobian_held'][rng.integers(7)]
         p = dict(which=which, T1=general_T(rng), T2=general_T(rng), S=twist(rng))
